@@ -55,7 +55,7 @@ var lastGo string
 func judge(c Case) string {
 	ref := goTypes(c.Src)
 	lastGo = ref
-	p, res := sg.BuildProgram(c.Src, sg.Opts{})
+	p, res := sg.BuildProgram(c.Src, sg.Opts{AllowGo: true}) // the go statement is part of the subset when the option allows it
 	_ = p
 	if res.BuildPanic != nil {
 		return fmt.Sprintf("Build panicked (%v); go/types says: %q", res.BuildPanic, ref)
